@@ -346,6 +346,19 @@ pub fn exec(rec: &Value, _st: &mut State) -> Value {
         "xyo" => exec_xyo(rec),
         "plane" => exec_plane(rec),
         "svd" => exec_svd(rec),
+        // order of the singular values only (exact float comparison), for point sets too large for the exact clauses
+        "svdorder" => {
+            let s = p2(gi(rec, "sc"));
+            let pts: Vec<Point3> = gvvi(rec, "pts").iter().map(|v| pt3(v, s)).collect();
+            let b = SvdBasis::<3>::from_points(&pts, None);
+            let fin = b.sv.iter().all(|v| v.is_finite());
+            let ordered = b.sv[0] >= b.sv[1] && b.sv[1] >= b.sv[2];
+            // the first axis is the direction of largest spread: its spread (sum of squared projections) is not exceeded by the others
+            let spread = |k: usize| -> f64 { pts.iter().map(|p| { let d = (p - b.center).dot(&b.basis[k]); d * d }).sum::<f64>() };
+            let (s0, s1, s2) = (spread(0), spread(1), spread(2));
+            let tol = 1.0e-9 * (s0 + s1 + s2);
+            json!({"finite": fin, "ordered": ordered, "largest_first": s0 + tol >= s1 && s1 + tol >= s2})
+        }
         _ => json!({"unknown_op": true}),
     }
 }
